@@ -71,15 +71,18 @@ class FinStr:
 
 
 class SStr:
-    """a symbolic str as z3 String term; lowered = .lower() has been applied (case folded view)"""
-    __slots__ = ("t", "lowered")
+    """a symbolic str as z3 String term seen through a *view*: lowered = .lower() applied,
+    stripped = .strip() applied.  All operations on it become regular-language memberships of the
+    underlying term (z3 decides those in ms; str.contains / fresh-string models of strip do not)."""
+    __slots__ = ("t", "lowered", "stripped")
 
-    def __init__(self, t, lowered=False):
+    def __init__(self, t, lowered=False, stripped=False):
         self.t = t
         self.lowered = lowered
+        self.stripped = stripped
 
     def __repr__(self):
-        return "SStr(%s%s)" % (self.t, ",lower" if self.lowered else "")
+        return "SStr(%s%s%s)" % (self.t, ",lower" if self.lowered else "", ",strip" if self.stripped else "")
 
 
 class OpaqueStr:
@@ -229,8 +232,9 @@ class Builtin:
 class ExtType:
     """a builtin / external type usable in isinstance and type(x) == T"""
 
-    def __init__(self, name):
+    def __init__(self, name, fn=None):
         self.name = name
+        self.fn = fn            # constructor call, for int/str/float/...
 
     def __repr__(self):
         return "<type %s>" % self.name
